@@ -350,6 +350,19 @@ class SingleSweepPart(Part):
     def run(self, prog):
         res = self._runner()(prog)
         res.violations = [v for v in res.violations if "SETUP" not in v.props]
+        if res.violations and prog.get("knobs", {}).get("mp"):
+            # C16 is differential: the same (state, call, plan) in threading mode decides whether the
+            # disagreement is specific to the multiprocessing code paths
+            import copy
+            p2 = copy.deepcopy(prog)
+            p2["knobs"]["mp"] = False
+            r2 = self._runner()(p2)
+            sigs2 = set(v.sig for v in r2.violations)
+            for v in res.violations:
+                if v.sig in sigs2:
+                    v.props.discard("C16")
+                else:
+                    v.props = set(["C16"])
         return res
 
     def key(self, prog, res):
@@ -374,8 +387,9 @@ class SingleRandomPart(SingleSweepPart):
     must_complete = False
 
     def __init__(self, prop, engine, name, weight=1.0, errnos=("EIO", "ENOSPC", "EACCES"), second=False,
-                 kinds="core"):
+                 kinds="core", mp=False):
         SingleSweepPart.__init__(self, prop, engine, name, errnos=errnos, weight=weight, second=second, kinds=kinds)
+        self.mp = mp
         self.rule = self.rule.replace("sweep:", "random:").replace(
             "for every (start state, call) of the menu", "for seeded random (start-state history, call, configuration, "
             "st_blksize, write-through) triples")
@@ -386,6 +400,8 @@ class SingleRandomPart(SingleSweepPart):
     def gen(self, seed, tier):
         import random
         prog = gen.gen_single_random(seed, self.engine.lower(), tier)
+        if getattr(self, "mp", False):
+            prog["knobs"]["mp"] = True
         rng = random.Random("plan:%d" % seed)
         if self.engine == "FAULT":
             prog["fault"] = {"index": rng.randrange(0, 40), "errno": rng.choice(list(self.errnos)),
